@@ -50,8 +50,8 @@ Definition Inv (s : Z) (pend exact : bool) (st : sst) : Prop :=
   exists R gi r,
     s = (R * gM g + gi) * gv g + r /\ 0 <= R /\ 0 <= gi < gM g /\ 0 <= r < gv g /\ s < gH g /\
     scan st = s /\ rgctr st = gi /\
-    (bfull st = true -> bufrow st = R /\ imcu st = R + 1 /\ (0 < gi \/ 0 < r)) /\
-    (bfull st = false -> imcu st = R /\ r = 0 /\ (pend = false -> gi = 0)) /\
+    (bfull st = true -> bufrow st = R /\ imcu st = R + 1 /\ (0 < gi \/ 0 < r) /\ pend = false) /\
+    (bfull st = false -> imcu st = R /\ r = 0 /\ (pend = false -> gi = 0) /\ (pend = true -> 0 < gi)) /\
     ((gmerged g = false \/ gv g = 2) -> gH g - s <= rtg st /\ (exact = true -> rtg st = gH g - s)) /\
     (gmerged g = false -> nro st = (if r =? 0 then gv g else r) /\ (0 < r -> cbuf st = R * gM g + gi)) /\
     (merged2v g = true -> sfull st = (r =? 1) /\ (r = 1 -> spare st = s) /\ pend = false).
@@ -64,218 +64,282 @@ Proof.
   all: try (intros Hm; destruct (H10 Hm); split; auto; discriminate).
 Qed.
 
-Lemma Inv_pend s e st : merged2v g = false -> forall p, Inv s false e st -> Inv s p e st.
-Proof.
-  intros Hm2 p (R & gi & r & H1 & H2 & H3 & H4 & H5 & H6 & H7 & H8 & H9 & H10 & H11 & H12).
-  exists R, gi, r. repeat match goal with |- _ /\ _ => split end; auto; try lia.
-  all: try (intros Hb; destruct (H9 Hb) as (A & B & C); repeat split; auto; intros; apply C; reflexivity).
-  all: try (intros Hx; rewrite Hm2 in Hx; discriminate).
-Qed.
-
 Lemma Inv_scan s p e st : Inv s p e st -> scan st = s /\ 0 <= s < gH g.
 Proof.
   intros (R & gi & r & H1 & H2 & H3 & H4 & H5 & H6 & _). split; [assumption|]. nia.
 Qed.
 
+Ltac splits := repeat match goal with |- _ /\ _ => split end.
+Ltac simp_st := cbn [scan bfull rgctr imcu bufrow nro rtg cbuf sfull spare fst snd].
+Ltac simp_st_in H := cbn [scan bfull rgctr imcu bufrow nro rtg cbuf sfull spare fst snd] in H.
+
 (* ---------- one call of jpeg_read_scanlines ---------- *)
+Definition ReadOk (s : Z) (exact : bool) (avail : Z) (res : sst * list prov) : Prop :=
+  exists k, snd res = rows_of s k /\
+    1 <= k <= avail /\ s + k <= gH g /\ scan (fst res) = s + k /\
+    (s + k < gH g -> Inv (s + k) false exact (fst res)).
+
+Lemma read_call_sep s pend exact st avail :
+  gmerged g = false ->
+  Inv s pend exact st -> 1 <= avail ->
+  (exact = true \/ gH g mod gv g = 0 \/ avail <= gH g - s) ->
+  ReadOk s exact avail (read_scanlines_s g st avail).
+Proof.
+  intros Emg (R & gi & r & Hs & HR & Hgi & Hr & HsH & Hscan & Hrg & Hbt & Hbf & Hrtg & Hsep & Hm2) Hav Hside.
+  assert (Hm2f : merged2v g = false) by (unfold merged2v; rewrite Emg; reflexivity).
+  destruct st as [sc bf rc im br nr rt cb sf sp]. simp_st_in Hscan. simp_st_in Hrg. simp_st_in Hbt. simp_st_in Hbf.
+  simp_st_in Hrtg. simp_st_in Hsep. subst sc rc.
+  destruct (Hsep Emg) as (Hnro & Hcb). destruct (Hrtg (or_introl Emg)) as (Hrt1 & Hrt2). clear Hsep Hrtg Hm2.
+  unfold read_scanlines_s. simp_st.
+  destruct (gH g <=? s) eqn:E0; [lia|]. clear E0.
+  unfold simple_main, upsample_s. rewrite Emg. simp_st.
+  (* after the buffer is filled: bufrow = R, imcu = R + 1 *)
+  assert (Hfill : (if bf then mkS s bf gi im br nr rt cb sf sp else mkS s true gi (im + 1) im nr rt cb sf sp)
+                  = mkS s true gi (R + 1) R nr rt cb sf sp).
+  { destruct bf.
+    - destruct (Hbt eq_refl) as (-> & -> & _). reflexivity.
+    - destruct (Hbf eq_refl) as (-> & _). reflexivity. }
+  rewrite Hfill. clear Hfill.
+  unfold sep_upsample_s. simp_st.
+  assert (Hpair : (if gv g <=? nr then (0, R * gM g + gi) else (nr, cb)) = (r, R * gM g + gi)).
+  { rewrite Hnro. destruct (r =? 0) eqn:Er.
+    - assert (r = 0) by lia. subst r. assert (E : (gv g <=? gv g) = true) by lia. rewrite E. reflexivity.
+    - assert (E : (gv g <=? r) = false) by lia. rewrite E. rewrite Hcb by lia. reflexivity. }
+  rewrite Hpair. clear Hpair.
+  set (k := Z.max 0 (Z.min (Z.min (gv g - r) rt) avail)).
+  assert (Hk : 1 <= k <= avail /\ k <= gv g - r /\ k <= rt) by (unfold k; lia).
+  assert (HkH : s + k <= gH g).
+  { destruct Hside as [He | [He | He]].
+    - rewrite (Hrt2 He) in Hk. lia.
+    - assert (gH g = gv g * (gH g / gv g)) by (pose proof (Z.div_mod (gH g) (gv g)); lia).
+      set (q := gH g / gv g) in *. set (G := R * gM g + gi) in *.
+      assert (G < q) by nia. nia.
+    - lia. }
+  simp_st.
+  assert (Hrows : map (fun j : Z => ((R * gM g + gi) * gv g + r + j, -1)) (zseq 0 (Z.to_nat k)) = rows_of s k).
+  { unfold rows_of. replace (zseq s (Z.to_nat k)) with (zseq (s + 0) (Z.to_nat k)) by (f_equal; lia).
+    rewrite <- map_shift. apply map_ext. intros j. unfold ideal_s. f_equal. lia. }
+  rewrite Hrows.
+  assert (Hlen : zlen (rows_of s k) = k) by (unfold rows_of; rewrite zlen_map_zseq; lia).
+  exists k. 
+  assert (Hnia : gi + 1 = gM g -> s + k = ((R + 1) * gM g + 0) * gv g + 0 \/ r + k < gv g) by nia.
+  destruct (gv g <=? r + k) eqn:Eg; simp_st.
+  - assert (Hrk : r + k = gv g) by lia.
+    destruct (gM g <=? gi + 1) eqn:EM; simp_st; unfold set_scan; simp_st; rewrite Hlen.
+    + splits; try lia; try reflexivity.
+      intros Hlt. exists (R + 1), 0, 0. simp_st. splits; try lia; try discriminate.
+      all: try (rewrite Hm2f; discriminate).
+      all: try (intros _; split; [|lia]; cbn [Z.eqb]; lia).
+    + splits; try lia; try reflexivity.
+      intros Hlt. exists R, (gi + 1), 0. simp_st. splits; try lia; try discriminate.
+      all: try (rewrite Hm2f; discriminate).
+      all: try (intros _; split; [|lia]; cbn [Z.eqb]; lia).
+  - assert (EM : (gM g <=? gi) = false) by lia. rewrite EM. unfold set_scan; simp_st. rewrite Hlen.
+    splits; try lia; try reflexivity.
+    intros Hlt. exists R, gi, (r + k). simp_st. splits; try lia; try discriminate.
+    all: try (rewrite Hm2f; discriminate).
+    all: try (intros _; split; [|lia]; assert (E : (r + k =? 0) = false) by lia; rewrite E; reflexivity).
+Qed.
+
+Lemma read_call_m1 s pend exact st avail :
+  gmerged g = true -> gv g = 1 ->
+  Inv s pend exact st -> 1 <= avail ->
+  ReadOk s exact avail (read_scanlines_s g st avail).
+Proof.
+  intros Emg Hv1 (R & gi & r & Hs & HR & Hgi & Hr & HsH & Hscan & Hrg & Hbt & Hbf & Hrtg & Hsep & Hm2) Hav.
+  assert (Hm2f : merged2v g = false) by (unfold merged2v; rewrite Emg, Hv1; reflexivity).
+  assert (r = 0) by lia. subst r.
+  destruct st as [sc bf rc im br nr rt cb sf sp]. simp_st_in Hscan. simp_st_in Hrg. simp_st_in Hbt. simp_st_in Hbf.
+  subst sc rc. clear Hsep Hrtg Hm2.
+  unfold read_scanlines_s. simp_st.
+  destruct (gH g <=? s) eqn:E0; [lia|]. clear E0.
+  unfold simple_main, upsample_s. rewrite Emg, Hv1. cbn [Z.eqb Pos.eqb]. simp_st.
+  assert (Hfill : (if bf then mkS s bf gi im br nr rt cb sf sp else mkS s true gi (im + 1) im nr rt cb sf sp)
+                  = mkS s true gi (R + 1) R nr rt cb sf sp).
+  { destruct bf.
+    - destruct (Hbt eq_refl) as (-> & -> & _). reflexivity.
+    - destruct (Hbf eq_refl) as (-> & _). reflexivity. }
+  rewrite Hfill. clear Hfill.
+  unfold merged_1v_s. simp_st.
+  assert (Hrow : [(R * gM g + gi, -1)] = rows_of s 1).
+  { unfold rows_of. change (Z.to_nat 1) with 1%nat. cbn [zseq map]. unfold ideal_s. rewrite Hv1 in Hs.
+    do 2 f_equal. lia. }
+  rewrite Hrow.
+  assert (Hlen : zlen (rows_of s 1) = 1) by (unfold rows_of; rewrite zlen_map_zseq; lia).
+  exists 1.
+  destruct (gM g <=? gi + 1) eqn:EM; simp_st; unfold set_scan; simp_st; rewrite Hlen.
+  - splits; try lia; try reflexivity.
+    intros Hlt. exists (R + 1), 0, 0. simp_st. rewrite Hv1 in *. splits; try lia; try discriminate.
+    all: try (rewrite Hm2f; discriminate).
+    all: try (rewrite Emg; discriminate).
+  - splits; try lia; try reflexivity.
+    intros Hlt. exists R, (gi + 1), 0. simp_st. rewrite Hv1 in *. splits; try lia; try discriminate.
+    all: try (rewrite Hm2f; discriminate).
+    all: try (rewrite Emg; discriminate).
+Qed.
+
+Lemma read_call_m2 s pend exact st avail :
+  gmerged g = true -> gv g = 2 ->
+  Inv s pend exact st -> 1 <= avail ->
+  (exact = true \/ gH g mod gv g = 0 \/ avail <= gH g - s) ->
+  ReadOk s exact avail (read_scanlines_s g st avail).
+Proof.
+  intros Emg Hv2 (R & gi & r & Hs & HR & Hgi & Hr & HsH & Hscan & Hrg & Hbt & Hbf & Hrtg & Hsep & Hm2) Hav Hside.
+  assert (Hm2t : merged2v g = true) by (unfold merged2v; rewrite Emg, Hv2; reflexivity).
+  destruct st as [sc bf rc im br nr rt cb sf sp]. simp_st_in Hscan. simp_st_in Hrg. simp_st_in Hbt. simp_st_in Hbf.
+  simp_st_in Hrtg. simp_st_in Hm2. subst sc rc.
+  destruct (Hm2 Hm2t) as (Hsf & Hsp & Hp). destruct (Hrtg (or_intror Hv2)) as (Hrt1 & Hrt2). clear Hsep Hrtg Hm2.
+  unfold read_scanlines_s. simp_st.
+  destruct (gH g <=? s) eqn:E0; [lia|]. clear E0.
+  unfold simple_main, upsample_s. rewrite Emg, Hv2. cbn [Z.eqb Pos.eqb]. simp_st.
+  assert (Hfill : (if bf then mkS s bf gi im br nr rt cb sf sp else mkS s true gi (im + 1) im nr rt cb sf sp)
+                  = mkS s true gi (R + 1) R nr rt cb sf sp).
+  { destruct bf.
+    - destruct (Hbt eq_refl) as (-> & -> & _). reflexivity.
+    - destruct (Hbf eq_refl) as (-> & _). reflexivity. }
+  rewrite Hfill. clear Hfill.
+  unfold merged_2v_s. simp_st. rewrite Hv2 in *.
+  assert (Hr01 : r = 0 \/ r = 1) by lia.
+  destruct Hr01 as [-> | ->].
+  - (* spare empty *)
+    rewrite Hsf. cbn [Z.eqb].
+    set (num := Z.max 0 (Z.min (Z.min 2 rt) avail)).
+    assert (Hnum : num = 1 \/ num = 2) by (unfold num; lia).
+    assert (Hs2 : (R * gM g + gi) * 2 = s) by lia. rewrite Hs2.
+    destruct Hnum as [Hn | Hn]; rewrite Hn; cbn [Z.ltb Z.compare Pos.compare Pos.compare_cont negb]; simp_st.
+    + assert (Hrow : ztake 1 [(s, -1); (s + 1, -1)] = rows_of s 1) by reflexivity.
+      rewrite Hrow.
+      assert (Hlen : zlen (rows_of s 1) = 1) by (unfold rows_of; rewrite zlen_map_zseq; lia).
+      exists 1. assert (EM : (gM g <=? gi) = false) by lia. rewrite EM. unfold set_scan; simp_st. rewrite Hlen.
+      splits; try lia; try reflexivity.
+      intros Hlt. exists R, gi, 1. simp_st. rewrite Hv2. splits; try lia; try discriminate.
+      all: try (rewrite Emg; discriminate).
+      all: try (intros _; splits; try reflexivity; try assumption; lia).
+    + assert (Hs2H : s + 2 <= gH g).
+      { unfold num in Hn. destruct Hside as [He | [He | He]].
+        - rewrite (Hrt2 He) in Hn. lia.
+        - clear Hn. Z.div_mod_to_equations. lia.
+        - lia. }
+      assert (Hrow : ztake 2 [(s, -1); (s + 1, -1)] = rows_of s 2).
+      { unfold rows_of, ztake. change (Z.to_nat 2) with 2%nat. cbn [zseq map firstn]. reflexivity. }
+      rewrite Hrow.
+      assert (Hlen : zlen (rows_of s 2) = 2) by (unfold rows_of; rewrite zlen_map_zseq; lia).
+      exists 2.
+      destruct (gM g <=? gi + 1) eqn:EM; simp_st; unfold set_scan; simp_st; rewrite Hlen.
+      * splits; try lia; try reflexivity.
+        intros Hlt. exists (R + 1), 0, 0. simp_st. rewrite Hv2. splits; try lia; try discriminate.
+        all: try (rewrite Emg; discriminate).
+        all: try (intros _; splits; try reflexivity; try assumption; lia).
+      * splits; try lia; try reflexivity.
+        intros Hlt. exists R, (gi + 1), 0. simp_st. rewrite Hv2. splits; try lia; try discriminate.
+        all: try (rewrite Emg; discriminate).
+        all: try (intros _; splits; try reflexivity; try assumption; lia).
+  - (* the spare row is delivered *)
+    rewrite Hsf. cbn [Z.eqb Pos.eqb]. simp_st.
+    assert (Hrow : [(sp, -1)] = rows_of s 1).
+    { rewrite (Hsp eq_refl). reflexivity. }
+    rewrite Hrow.
+    assert (Hlen : zlen (rows_of s 1) = 1) by (unfold rows_of; rewrite zlen_map_zseq; lia).
+    exists 1.
+    destruct (gM g <=? gi + 1) eqn:EM; simp_st; unfold set_scan; simp_st; rewrite Hlen.
+    + splits; try lia; try reflexivity.
+      intros Hlt. exists (R + 1), 0, 0. simp_st. rewrite Hv2. splits; try lia; try discriminate.
+      all: try (rewrite Emg; discriminate).
+      all: try (intros _; splits; try reflexivity; try assumption; lia).
+    + splits; try lia; try reflexivity.
+      intros Hlt. exists R, (gi + 1), 0. simp_st. rewrite Hv2. splits; try lia; try discriminate.
+      all: try (rewrite Emg; discriminate).
+      all: try (intros _; splits; try reflexivity; try assumption; lia).
+Qed.
+
 Lemma read_call s pend exact st avail :
   Inv s pend exact st -> 1 <= avail ->
   (exact = true \/ gH g mod gv g = 0 \/ avail <= gH g - s) ->
-  exists k st', read_scanlines_s g st avail = (st', rows_of s k) /\
-    1 <= k <= avail /\ s + k <= gH g /\ scan st' = s + k /\
-    (s + k < gH g -> Inv (s + k) false exact st').
+  ReadOk s exact avail (read_scanlines_s g st avail).
 Proof.
-  intros (R & gi & r & Hs & HR & Hgi & Hr & HsH & Hscan & Hrg & Hbt & Hbf & Hrtg & Hsep & Hm2) Hav Hside.
-  unfold read_scanlines_s. rewrite Hscan.
-  destruct (gH g <=? s) eqn:E0; [lia|]. clear E0.
-  unfold simple_main.
-  (* state after the buffer was filled if necessary *)
-  set (st1 := if bfull st then st
-              else mkS (scan st) true (rgctr st) (imcu st + 1) (imcu st) (nro st) (rtg st) (cbuf st) (sfull st) (spare st)).
-  assert (F1 : scan st1 = s /\ bfull st1 = true /\ rgctr st1 = gi /\ imcu st1 = R + 1 /\ bufrow st1 = R /\
-               nro st1 = nro st /\ rtg st1 = rtg st /\ cbuf st1 = cbuf st /\ sfull st1 = sfull st /\ spare st1 = spare st).
-  { unfold st1. destruct (bfull st) eqn:Eb.
-    - destruct (Hbt eq_refl) as (A & B & _). repeat split; auto.
-    - destruct (Hbf eq_refl) as (A & _). cbn. repeat split; auto; lia. }
-  destruct F1 as (S1 & B1 & G1 & I1 & U1 & N1 & T1 & C1 & SF1 & SP1).
-  (* r > 0 forces a full buffer *)
-  assert (Hrb : 0 < r -> bfull st = true).
-  { intros. destruct (bfull st) eqn:Eb; [reflexivity|]. destruct (Hbf eq_refl) as (_ & A & _). lia. }
-  unfold upsample_s.
-  destruct (gmerged g) eqn:Emg.
-  - (* merged *)
-    destruct (Hmv eq_refl) as [Hv1 | Hv2].
-    + (* merged 1v *)
-      assert (E2 : (gv g =? 2) = false) by lia. rewrite E2.
-      assert (r = 0) by lia. subst r.
-      unfold merged_1v_s. cbn [fst snd].
-      exists 1. eexists. split.
-      { rewrite U1, G1. unfold rows_of. cbn [Z.to_nat Pos.to_nat Pos.iter_op Nat.add zseq map].
-        unfold ideal_s. replace (R * gM g + gi) with s by nia. reflexivity. }
-      split; [lia|]. split; [lia|].
-      destruct (gM g <=? gi + 1) eqn:EM; rewrite G1, EM; cbn [scan].
-      * split. { unfold zlen. cbn. lia. }
-        intros Hlt. exists (R + 1), 0, 0. cbn [scan bfull rgctr imcu bufrow nro rtg cbuf sfull spare].
-        rewrite Hv1 in *. repeat match goal with |- _ /\ _ => split end; try lia.
-        -- unfold zlen; cbn; lia.
-        -- discriminate.
-        -- intros [A|A]; [discriminate|lia].
-        -- discriminate.
-        -- unfold merged2v. rewrite Emg, Hv1. discriminate.
-      * split. { unfold zlen. cbn. lia. }
-        intros Hlt. exists R, (gi + 1), 0. cbn [scan bfull rgctr imcu bufrow nro rtg cbuf sfull spare].
-        rewrite Hv1 in *. repeat match goal with |- _ /\ _ => split end; try lia.
-        -- unfold zlen; cbn; lia.
-        -- intros _. rewrite B1, U1, I1. repeat split; lia.
-        -- rewrite B1. discriminate.
-        -- intros [A|A]; [discriminate|lia].
-        -- discriminate.
-        -- unfold merged2v. rewrite Emg, Hv1. discriminate.
-    + (* merged 2v *)
-      assert (E2 : (gv g =? 2) = true) by lia. rewrite E2.
-      assert (Hm2' : merged2v g = true) by (unfold merged2v; rewrite Emg, E2; reflexivity).
-      destruct (Hm2 Hm2') as (Hsf & Hsp & Hp).
-      destruct (Hrtg (or_intror Hv2)) as (Hrt1 & Hrt2).
-      unfold merged_2v_s. rewrite SF1, Hsf.
-      assert (Hr01 : r = 0 \/ r = 1) by lia.
-      destruct Hr01 as [-> | ->].
-      * (* spare empty *)
-        cbn [Z.eqb].
-        set (num := Z.max 0 (Z.min (Z.min 2 (rtg st1)) avail)).
-        assert (Hnum : num = 1 \/ num = 2) by (unfold num; rewrite T1; lia).
-        assert (Hs2 : s = (R * gM g + gi) * 2) by lia.
-        destruct Hnum as [Hn | Hn].
-        -- (* one row, the second goes to the spare *)
-           rewrite Hn. cbn [Z.ltb Z.compare Pos.compare Pos.compare_cont negb].
-           exists 1. eexists. split.
-           { rewrite U1, G1. unfold rows_of, ztake. cbn [Z.to_nat Pos.to_nat Pos.iter_op Nat.add zseq map firstn].
-             unfold ideal_s. rewrite <- Hs2. reflexivity. }
-           split; [lia|]. split; [lia|].
-           cbn [rgctr]. rewrite G1.
-           assert (EM : (gM g <=? gi) = false) by lia. rewrite EM. cbn [scan].
-           split. { unfold zlen, ztake. cbn. lia. }
-           intros Hlt. exists R, gi, 1. cbn [scan bfull rgctr imcu bufrow nro rtg cbuf sfull spare].
-           rewrite Hv2. repeat match goal with |- _ /\ _ => split end; try lia.
-           ++ unfold zlen, ztake; cbn; lia.
-           ++ intros _. rewrite U1, I1. repeat split; lia.
-           ++ rewrite B1. discriminate.
-           ++ intros _. rewrite T1. split; [lia|]. intros He. rewrite (Hrt2 He). lia.
-           ++ rewrite Emg. discriminate.
-           ++ intros _. repeat split; [rewrite U1, G1; lia | assumption].
-        -- (* two rows *)
-           rewrite Hn. cbn [Z.ltb Z.compare Pos.compare Pos.compare_cont negb].
-           assert (Hs2H : s + 2 <= gH g).
-           { unfold num in Hn. rewrite T1 in Hn.
-             destruct Hside as [He | [He | He]].
-             - rewrite (Hrt2 He) in Hn. lia.
-             - rewrite Hv2 in He. lia.
-             - lia. }
-           exists 2. eexists. split.
-           { rewrite U1, G1. unfold rows_of, ztake. cbn [Z.to_nat Pos.to_nat Pos.iter_op Nat.add zseq map firstn].
-             unfold ideal_s. rewrite <- Hs2. reflexivity. }
-           split; [lia|]. split; [lia|].
-           cbn [rgctr]. rewrite G1.
-           destruct (gM g <=? gi + 1) eqn:EM; cbn [scan].
-           ++ split. { unfold zlen, ztake. cbn. lia. }
-              intros Hlt. exists (R + 1), 0, 0. cbn [scan bfull rgctr imcu bufrow nro rtg cbuf sfull spare].
-              rewrite Hv2. repeat match goal with |- _ /\ _ => split end; try lia.
-              ** unfold zlen, ztake; cbn; lia.
-              ** discriminate.
-              ** intros _. rewrite T1. split; [lia|]. intros He. rewrite (Hrt2 He). lia.
-              ** rewrite Emg. discriminate.
-              ** intros _. repeat split; [reflexivity | lia].
-           ++ split. { unfold zlen, ztake. cbn. lia. }
-              intros Hlt. exists R, (gi + 1), 0. cbn [scan bfull rgctr imcu bufrow nro rtg cbuf sfull spare].
-              rewrite Hv2. repeat match goal with |- _ /\ _ => split end; try lia.
-              ** unfold zlen, ztake; cbn; lia.
-              ** intros _. rewrite U1, I1. repeat split; lia.
-              ** rewrite B1. discriminate.
-              ** intros _. rewrite T1. split; [lia|]. intros He. rewrite (Hrt2 He). lia.
-              ** rewrite Emg. discriminate.
-              ** intros _. repeat split; [reflexivity | lia].
-      * (* the spare row is delivered *)
-        cbn [Z.eqb Pos.eqb].
-        exists 1. eexists. split.
-        { rewrite SP1, (Hsp eq_refl). unfold rows_of. cbn [Z.to_nat Pos.to_nat Pos.iter_op Nat.add zseq map].
-          reflexivity. }
-        split; [lia|]. split; [lia|].
-        cbn [rgctr]. rewrite G1.
-        destruct (gM g <=? gi + 1) eqn:EM; cbn [scan].
-        -- split. { unfold zlen. cbn. lia. }
-           intros Hlt. exists (R + 1), 0, 0. cbn [scan bfull rgctr imcu bufrow nro rtg cbuf sfull spare].
-           rewrite Hv2. repeat match goal with |- _ /\ _ => split end; try lia.
-           ++ unfold zlen; cbn; lia.
-           ++ discriminate.
-           ++ intros _. rewrite T1. split; [lia|]. intros He. rewrite (Hrt2 He). lia.
-           ++ rewrite Emg. discriminate.
-           ++ intros _. repeat split; [reflexivity | lia].
-        -- split. { unfold zlen. cbn. lia. }
-           intros Hlt. exists R, (gi + 1), 0. cbn [scan bfull rgctr imcu bufrow nro rtg cbuf sfull spare].
-           rewrite Hv2. repeat match goal with |- _ /\ _ => split end; try lia.
-           ++ unfold zlen; cbn; lia.
-           ++ intros _. rewrite U1, I1. repeat split; lia.
-           ++ rewrite B1. discriminate.
-           ++ intros _. rewrite T1. split; [lia|]. intros He. rewrite (Hrt2 He). lia.
-           ++ rewrite Emg. discriminate.
-           ++ intros _. repeat split; [reflexivity | lia].
-  - (* separate upsampler *)
-    destruct (Hsep eq_refl) as (Hnro & Hcb).
-    destruct (Hrtg (or_introl eq_refl)) as (Hrt1 & Hrt2).
-    assert (Hm2f : merged2v g = false) by (unfold merged2v; rewrite Emg; reflexivity).
-    unfold sep_upsample_s. rewrite N1, C1, U1, G1, T1.
-    (* in both cases the conversion buffer holds the current row group at offset r *)
-    assert (Hpair : (if gv g <=? nro st then (0, R * gM g + gi) else (nro st, cbuf st)) = (r, R * gM g + gi)).
-    { rewrite Hnro. destruct (r =? 0) eqn:Er.
-      - assert (r = 0) by lia. subst r. assert (E : (gv g <=? gv g) = true) by lia. rewrite E. reflexivity.
-      - assert (E : (gv g <=? r) = false) by lia. rewrite E. rewrite Hcb by lia. reflexivity. }
-    rewrite Hpair.
-    set (k := Z.max 0 (Z.min (Z.min (gv g - r) (rtg st)) avail)).
-    assert (Hk : 1 <= k <= avail /\ k <= gv g - r /\ k <= rtg st) by (unfold k; lia).
-    assert (HkH : s + k <= gH g).
-    { destruct Hside as [He | [He | He]].
-      - rewrite (Hrt2 He) in Hk. lia.
-      - (* H is a multiple of v: a whole row group is left *)
-        assert (gH g = gv g * (gH g / gv g)) by (pose proof (Z.div_mod (gH g) (gv g)); lia).
-        set (q := gH g / gv g) in *. set (G := R * gM g + gi) in *.
-        assert (G < q) by nia. nia.
-      - lia. }
-    exists k. eexists. split.
-    { f_equal. unfold rows_of.
-      rewrite <- (map_shift ideal_s s (Z.to_nat k) 0). replace (s + 0) with s by lia.
-      apply map_ext. intros j. unfold ideal_s. f_equal. rewrite Hs. lia. }
-    split; [lia|]. split; [lia|].
-    cbn [rgctr scan].
-    rewrite zlen_map_zseq, Z2Nat.id by lia.
-    destruct (gv g <=? r + k) eqn:Eg.
-    + (* the row group is finished *)
-      assert (Hrk : r + k = gv g) by lia.
-      destruct (gM g <=? gi + 1) eqn:EM; cbn [scan].
-      * split; [lia|].
-        intros Hlt. exists (R + 1), 0, 0. cbn [scan bfull rgctr imcu bufrow nro rtg cbuf sfull spare].
-        repeat match goal with |- _ /\ _ => split end; try lia.
-        -- assert (gi + 1 = gM g) by lia. nia.
-        -- discriminate.
-        -- intros _. split; [lia|]. intros He. rewrite (Hrt2 He). lia.
-        -- intros _. split; [|lia]. cbn [Z.eqb]. lia.
-        -- rewrite Hm2f. discriminate.
-      * split; [lia|].
-        intros Hlt. exists R, (gi + 1), 0. cbn [scan bfull rgctr imcu bufrow nro rtg cbuf sfull spare].
-        repeat match goal with |- _ /\ _ => split end; try lia.
-        -- intros _. rewrite I1. repeat split; lia.
-        -- rewrite B1. discriminate.
-        -- intros _. split; [lia|]. intros He. rewrite (Hrt2 He). lia.
-        -- intros _. split; [|lia]. cbn [Z.eqb]. lia.
-        -- rewrite Hm2f. discriminate.
-    + (* still inside the row group *)
-      assert (EM : (gM g <=? gi) = false) by lia. rewrite EM. cbn [scan].
-      split; [lia|].
-      intros Hlt. exists R, gi, (r + k). cbn [scan bfull rgctr imcu bufrow nro rtg cbuf sfull spare].
-      repeat match goal with |- _ /\ _ => split end; try lia.
-      * intros _. rewrite I1. repeat split; lia.
-      * rewrite B1. discriminate.
-      * intros _. split; [lia|]. intros He. rewrite (Hrt2 He). lia.
-      * intros _. split; [|lia]. assert (E : (r + k =? 0) = false) by lia. rewrite E. reflexivity.
-      * rewrite Hm2f. discriminate.
+  intros HI Hav Hside. destruct (Bool.bool_dec (gmerged g) true) as [Emg | Emg].
+  - destruct (Hmv Emg) as [H1 | H2].
+    + eapply read_call_m1; eauto.
+    + eapply read_call_m2; eauto.
+  - apply not_true_is_false in Emg. eapply read_call_sep; eauto.
+Qed.
+
+(* ---------- read_and_discard_scanlines ---------- *)
+Lemma rad_ok n : forall s pend exact st,
+  Inv s pend exact st -> s + Z.of_nat n <= gH g ->
+  scan (read_and_discard_s g n st) = s + Z.of_nat n /\
+  (s + Z.of_nat n < gH g -> Inv (s + Z.of_nat n) (pend && Nat.eqb n 0) exact (read_and_discard_s g n st)).
+Proof.
+  induction n as [|n IH]; intros s pend exact st HI Hle.
+  - cbn [read_and_discard_s Nat.eqb]. rewrite andb_true_r. replace (s + Z.of_nat 0) with s by lia.
+    split; [apply (Inv_scan _ _ _ _ HI)|]. intros _. exact HI.
+  - cbn [read_and_discard_s Nat.eqb]. rewrite andb_false_r.
+    destruct (Inv_scan _ _ _ _ HI) as (_ & Hs).
+    destruct (read_call s pend exact st 1 HI ltac:(lia) ltac:(right; right; lia)) as (k & Hrows & Hk & HkH & Hsc & HI1).
+    assert (k = 1) by lia. subst k.
+    set (st1 := fst (read_scanlines_s g st 1)) in *.
+    destruct (Z.eq_dec (s + 1) (gH g)) as [Heq | Hne].
+    + assert (n = 0%nat) by lia. subst n. cbn [read_and_discard_s]. split; [lia|]. intros; lia.
+    + assert (Hlt : s + 1 < gH g) by lia.
+      destruct (IH (s + 1) false exact st1 (HI1 Hlt) ltac:(lia)) as (A & B).
+      split; [lia|]. intros Hlt2.
+      replace (s + Z.of_nat (S n)) with (s + 1 + Z.of_nat n) by lia.
+      cbn [andb] in B. apply B. lia.
+Qed.
+
+(* ---------- op Read n ---------- *)
+Lemma read_loop_zero fuel st n : n <= 0 -> read_loop_s g fuel st n = (st, [], []).
+Proof. intros. destruct fuel; cbn [read_loop_s]; [reflexivity|]. assert (E : (n <=? 0) = true) by lia. rewrite E. reflexivity. Qed.
+
+Lemma read_loop_bottom fuel st n : gH g <= scan st -> read_loop_s g fuel st n = (st, [], []).
+Proof.
+  intros. destruct fuel; cbn [read_loop_s]; [reflexivity|].
+  assert (E : (gH g <=? scan st) = true) by lia. rewrite E, orb_true_r. reflexivity.
+Qed.
+
+Lemma rows_of_app s p q : 0 <= p -> 0 <= q -> rows_of s (p + q) = rows_of s p ++ rows_of (s + p) q.
+Proof. intros. unfold rows_of. rewrite zseq_split by lia. apply map_app. Qed.
+
+Lemma read_loop_ok fuel : forall s pend exact st n,
+  Inv s pend exact st -> 0 < n -> n <= Z.of_nat fuel ->
+  (exact = true \/ gH g mod gv g = 0 \/ s + n <= gH g) ->
+  exists st' cs, read_loop_s g fuel st n = (st', cs, rows_of s (Z.min n (gH g - s))) /\
+    scan st' = Z.min (gH g) (s + n) /\ Forall (fun c => 1 <= c) cs /\ zsum cs = Z.min n (gH g - s) /\
+    (s + n < gH g -> Inv (s + n) false exact st').
+Proof.
+  induction fuel as [|f IH]; intros s pend exact st n HI Hn Hf Hside; [lia|].
+  destruct (Inv_scan _ _ _ _ HI) as (Hsc & Hs).
+  cbn [read_loop_s]. rewrite Hsc.
+  assert (E : ((n <=? 0) || (gH g <=? s)) = false) by lia. rewrite E. clear E.
+  destruct (read_call s pend exact st n HI ltac:(lia) ltac:(lia)) as (k & Hrows & Hk & HkH & Hsc1 & HI1).
+  destruct (read_scanlines_s g st n) as [st1 rows] eqn:Er. cbn [fst snd] in *. subst rows.
+  assert (Hlen : zlen (rows_of s k) = k) by (unfold rows_of; rewrite zlen_map_zseq; lia).
+  rewrite Hlen. assert (E : (k =? 0) = false) by lia. rewrite E. clear E.
+  destruct (Z.eq_dec k n) as [Hkn | Hkn].
+  - (* everything delivered by this call *)
+    subst k. rewrite read_loop_zero by lia.
+    exists st1, [n]. replace (Z.min n (gH g - s)) with n by lia. rewrite app_nil_r.
+    splits; try lia; try reflexivity.
+    + constructor; [lia|constructor].
+    + cbn. lia.
+    + exact HI1.
+  - destruct (Z.eq_dec (s + k) (gH g)) as [Hb | Hb].
+    + (* bottom reached *)
+      rewrite read_loop_bottom by lia.
+      exists st1, [k]. replace (Z.min n (gH g - s)) with k by lia. rewrite app_nil_r.
+      splits; try lia; try reflexivity.
+      * constructor; [lia|constructor].
+      * cbn. lia.
+    + assert (Hlt : s + k < gH g) by lia.
+      destruct (IH (s + k) false exact st1 (n - k) (HI1 Hlt) ltac:(lia) ltac:(lia) ltac:(lia))
+        as (st2 & cs & Hrl & Hsc2 & Hall & Hsum & HI2).
+      rewrite Hrl. exists st2, (k :: cs).
+      splits; try lia.
+      * f_equal. replace (Z.min n (gH g - s)) with (k + Z.min (n - k) (gH g - (s + k))) by lia.
+        rewrite rows_of_app by lia. reflexivity.
+      * constructor; [lia|assumption].
+      * cbn [zsum]. lia.
+      * intros Hx. replace (s + n) with (s + k + (n - k)) by lia. apply HI2. lia.
 Qed.
 
 End Sched.
